@@ -1098,3 +1098,47 @@ def no_glob_enumeration(ctx, R, modules, why):
         out.append(ctx.ok(R, None, None, "no glob-pattern enumeration of job files (os.walk / listdir enumerate hidden entries too)", construct="|".join(modules) + "|glob-enumeration",
                           nontrivial=False))
     return out
+
+
+def no_stamp_validated_cache(ctx, R, modules, why):
+    """Content read from a file is not served from a cache whose freshness is judged by the file's time stamp / size: a rewrite of equal length within the
+    time stamp granularity (coarse file systems, tools that preserve mtimes) leaves the stamp unchanged."""
+    out = []
+    hits = 0
+    for f in ctx.prog.funcs.values():
+        if f.module.name not in modules:
+            continue
+        stamps = [c for c in body_nodes(f) if (isinstance(c, ast.Call) and (common.ext_name(ctx, f, c) in ("os.stat", "os.fstat", "os.lstat", "os.path.getmtime", "os.path.getsize")))
+                  or (isinstance(c, ast.Attribute) and c.attr in ("st_mtime", "st_mtime_ns", "st_size", "st_ctime", "st_ctime_ns"))]
+        if not stamps:
+            continue
+        # containers that persist across calls: attributes of self / module-level names
+        mod_names = set(f.module.consts)
+        lookups = []
+        for c in body_nodes(f):
+            base = None
+            if isinstance(c, ast.Call) and isinstance(c.func, ast.Attribute) and c.func.attr in ("get", "pop", "setdefault"):
+                base = c.func.value
+            elif isinstance(c, ast.Subscript) and isinstance(c.ctx, ast.Load):
+                base = c.value
+            if base is None:
+                continue
+            if (isinstance(base, ast.Attribute) and isinstance(base.value, ast.Name) and base.value.id in ("self", "cls")) or (isinstance(base, ast.Name) and base.id in mod_names):
+                lookups.append((c, canon(base)))
+        stores = {canon(t.value) for n in body_nodes(f) if isinstance(n, ast.Assign) for t in n.targets if isinstance(t, ast.Subscript)}
+        cached = [(c, b) for (c, b) in lookups if b in stores]
+        if not cached:
+            continue
+        stamp_names = set()
+        for n in body_nodes(f):
+            if isinstance(n, ast.Assign) and any(any(s is x for x in ast.walk(n.value)) for s in stamps):
+                stamp_names |= {t.id for t in n.targets if isinstance(t, ast.Name)}
+        cmp = [n for n in body_nodes(f) if isinstance(n, ast.Compare) and len(n.ops) == 1 and isinstance(n.ops[0], (ast.Eq, ast.NotEq, ast.LtE, ast.GtE, ast.Lt, ast.Gt))
+               and (names_in(n) & stamp_names or any(any(s is x for x in ast.walk(n)) for s in stamps))]
+        if cmp:
+            hits += 1
+            out.append(ctx.viol(R, f, cmp[0], f"{f.name} serves content from the cache {cached[0][1]} as long as `{canon(cmp[0])[:50]}` says the file is unchanged: a file rewritten with the "
+                                f"same length within the time stamp granularity keeps its stamp - {why}", construct=f"{f.qual}|stamp-validated-cache"))
+    if not hits:
+        out.append(ctx.ok(R, None, None, "no cache of file content validated by time stamp / size", construct="|".join(modules) + "|stamp-validated-cache", nontrivial=False))
+    return out
